@@ -24,12 +24,16 @@ prop(
     level_note="trusted: Kani/CBMC; listener tasks are never spawned (VSpawner drops them); participant not enabled (enabling "
                "announces through XTypes, outside)",
     explanation="Kani harnesses on DcpsDomainParticipant::create_user_defined_publisher/subscriber, create_topic, "
-                "create_content_filtered_topic, create_data_writer, create_data_reader with symbolic creation counters "
+                "create_content_filtered_topic with symbolic creation counters "
                 "(full u8 / u16 range) and one live earlier entity per kind (invariant: its counter bytes are below the "
                 "current counter); asserts no panic (dev profile overflow checks), handle distinctness, the invariant after the "
                 "step, and that a failing creation is OutOfResources and stores nothing.",
     bounds="one live earlier entity per kind; counters symbolic over their full range",
-    outside="the enabled-entity announcement path (DynamicData); RTPS GUID = same 16 bytes as the handle (by construction in "
-            "the code, asserted for writers/readers via the handle only)",
+    outside="create_data_writer / create_data_reader (writer_counter / reader_counter): the SAT encoding of one such call on a "
+            "participant exceeded 26 GB / 450 s in propositional reduction even with the announcement, TypeInformation and "
+            "TopicKind stubs (harnesses kept parked in c35_handles.rs, not run) — these two counters use the same checked_add "
+            "pattern but are NOT decided here; the enabled-entity announcement path (DynamicData); RTPS GUIDs (same 16 bytes as "
+            "the handle by construction); stubs: TypeInformation::from(DynamicType) and alloc::fmt::format in the topic harnesses",
     timeout={"quick": 900, "thorough": 1800},
+    cbmc_args=["--unwindset", "memcmp.0:17"],
 )
